@@ -13,6 +13,7 @@ import sys, os, re, shutil, subprocess, json
 from concurrent.futures import ThreadPoolExecutor
 sys.path.insert(0, os.path.join(os.path.dirname(os.path.abspath(__file__)), "..", "lib"))
 from vlib import *
+import c11_tagmode as TM
 
 # ---------------------------------------------------------------- AST helpers
 # module = (tagging 'E'|'I'|'A', [def]);  def = (name, tag, ty)
@@ -648,11 +649,29 @@ def fixed_corpus():
     return C
 
 
+def tagmode_projection():
+    """the part of the tagging-mode layer (lib/c11_tagmode.py) that the algebra of Fix/Tags.v can
+    express — reference chains of 0..4 definitions ending in a CHOICE / INTEGER / SEQUENCE, one tag at
+    every hop in every mode, used under [n] IMPLICIT / [n] EXPLICIT / [n] / nothing as SEQUENCE, SET and
+    CHOICE component — as ordinary cases: verdict and diagnostic classes against `check` and the spec"""
+    out = []
+    for term in ("choice", "int", "seq"):
+        for L in range(0, 5):
+            for default in "EIA":
+                chains = [(term, modes, (i % 2) == 1) for i, (lab, modes) in enumerate(TM.directed_cfgs(L))]
+                m = TM.build_module(default, chains)
+                for legal in (False, True):
+                    mm = TM.legal_variant(m) if legal else m
+                    defs = [d for d in mm[1] if d[2][0] not in "QP"]       # a tagged element is not in the old algebra
+                    out.append(("tmproj:%s:L%d:%s%s" % (term, L, default, ":legal" if legal else ""), (mm[0], defs)))
+    return out
+
+
 def generate(rng, tier, model):
     """returns list of (label, module)"""
     nbase = 8 if tier == "quick" else 40
     budget = 1500 if tier == "quick" else 10000
-    cases = list(fixed_corpus())
+    cases = list(fixed_corpus()) + tagmode_projection()
     # random modules; the spec-valid ones become bases for the injections
     cands = [gen_module(rng) for _ in range(nbase * 8)]
     rc, mo, me = run_lines(model, [mod_line(m) for m in cands])
@@ -1010,6 +1029,8 @@ def main(tier):
             run.violation("correspondence:Fix.Tags.check", dict(rep, what="extracted model and asn1c disagree",
                                                                model_verdict=f["model"], model_classes=mcls),
                           no_input=(oracle_bad is None or (known is not None)))
+    # ---- the tagging-mode layer: verdicts and EMITTED tags along reference chains (lib/c11_tagmode.py)
+    ntm = TM.run_layer(run, Rng(run.seed * 7919 + 11), tier, model, asn1c, skel, scratch(), NCPU, run_lines)
     for i in (0, len(cases) // 3, 2 * len(cases) // 3, len(cases) - 1):
         run.sample({"label": cases[i][0], "asn1": texts[i], "model": mo[i], "asn1c": {k: results[i][k] for k in ("rc", "verdict", "classes", "nfiles")}})
     tb = ["Coq 8.16.1 kernel + vm_compute (refuted witnesses only)",
@@ -1022,7 +1043,8 @@ def main(tier):
                       checker_cmd="make -C /verif all && coqc -Q coq A1 coq/Props/Properties_C11.v",
                       extra_cov={"theorems": names,
                                  "rule": "fixed witnesses + spec-valid random bases (with COMPONENTS OF, large and extensible enumerations) + single-fault injections (collision kinds x every component pair x plain/auto/manual/run variants, duplicate identifier at every pair, duplicate enumeration name/value at every pair, dangling reference at every component/alias/element; COMPONENTS OF of six auxiliary earlier types x every SEQUENCE/SET site x every position x E/I/A x fault (inherited identifier, inherited tag, universal tag, automatic tagging over inherited tags, twice, additions not copied, nested extension, inside additions); enumerations over 15 value sets around 2^31/2^32/2^63/2^64/2^127 x valid/duplicate at every pair x root/after the marker), round-robin over the catalogue up to the tier's budget; one asn1c process per module",
-                                 "traces_validated_against_impl": len(cases)},
+                                 "tagging_mode_layer": "reference chains of 0..4 (random: ..6) definitions x terminal CHOICE/ANY/INTEGER/SEQUENCE x one tag at every hop in every mode, two tags at every pair of hops, random placements x use as SEQUENCE/SET/CHOICE component (root and additions), SEQUENCE OF/SET OF element, under [n] IMPLICIT/[n] EXPLICIT/[n]/nothing x EXPLICIT/IMPLICIT/AUTOMATIC TAGS; verdict per use and, for accepted modules, member tag/tag_mode and tags/all_tags vectors read from the generated .c files, against an independent X.680 computation and the extracted Fix/TagMode.v",
+                                 "traces_validated_against_impl": len(cases) + ntm},
                       assumptions=["model of libasn1fix is hand-written; tied by differential runs only on the generated modules",
                                    "single-module specifications of the algebra in notes/design/C11.md; no constraints, parameterization, IMPORTS, ANY, SET OF; COMPONENTS OF only of earlier definitions; extensible ENUMERATED only fully valued",
                                    "diagnostic classes are recognised by message text"])
